@@ -206,6 +206,18 @@ mut("M75", "conn.go", "		caps = append(caps, fmt.Sprintf(\"LIMITS RCPTMAX=%v\", 
 mut("M36", "conn.go", "		c.writeResponse(452, EnhancedCode{4, 5, 3}, fmt.Sprintf(\"Maximum limit of %v recipients reached\", c.server.MaxRecipients))", "		c.writeResponse(452, EnhancedCode{5, 5, 3}, fmt.Sprintf(\"Maximum limit of %v recipients reached\", c.server.MaxRecipients))", ["C04"], "enhanced-code-of-the-same-class", note="452 sent with enhanced code 5.5.3")
 mut("M19", "conn.go", "			enhCode = EnhancedCode{cat, 0, 0}", "			enhCode = EnhancedCode{5, 0, 0}", ["C17"], "unset-enhanced-code-defaults-to-class", note="unset enhanced code always 5.0.0")
 mut("M43", "conn.go", "		c.writeResponse(code, enhCode, err.Error())\n	}\n}", "		c.writeResponse(451, enhCode, err.Error())\n	}\n}", ["C17"], "generic-code", note="writeError ignores the call site's generic code")
+# ---------------------------------------------------------------- client.go
+mut("M30", "client.go", "	if d.closed {\n		return fmt.Errorf(\"smtp: data writer closed twice\")\n	}\n	d.closed = true\n", "	if d.closed {\n		return fmt.Errorf(\"smtp: data writer closed twice\")\n	}\n", ["C16"], "always-closed-afterwards", note="dataCloser never marked closed (also regression of fix 755bba6)")
+mut("P13r", "client.go", "		// The transaction is over, its recipients must not be reported\n		// again for the next one on this connection.\n		d.c.rcpts = nil\n", "", ["C18"], "recipients-forgotten", note="regression of fix beb567b (LMTP recipients carried over)")
+mut("P13br", "client.go", "					} else if refused == nil {\n						// Nobody is told about per-recipient statuses:\n						// report the first refusal through Close.\n						refused = smtpErr\n					}", "					}", ["C18"], "refusal-remembered", note="regression of fix bcd2888 (refusal lost without callback)")
+mut("M45", "client.go", "			expectedResponses--\n		}\n		// The transaction is over", "			expectedResponses--\n			if d.statusCb == nil {\n				break\n			}\n		}\n		// The transaction is over", ["C18"], "exactly-one-reply-per-accepted-recipient", note="LMTP Close without callback reads one reply only")
+mut("M17", "client.go", "			sb.WriteString(\" REQUIRETLS\")\n		} else {\n			return errors.New(\"smtp: server does not support REQUIRETLS\")\n		}", "			sb.WriteString(\" REQUIRETLS\")\n		}", ["C15"], "requiretls-not-silently-dropped", note="REQUIRETLS silently dropped when not offered")
+mut("M52", "client.go", "	if _, ok := c.ext[\"SIZE\"]; ok && opts != nil && opts.Size != 0 {", "	if opts != nil && opts.Size != 0 {", ["C15"], "only-negotiated-parameters", note="SIZE rendered without the extension check")
+mut("M51", "client.go", "	if _, ok := c.ext[\"RRVS\"]; ok && opts != nil && !opts.RequireRecipientValidSince.IsZero() {", "	if opts != nil && !opts.RequireRecipientValidSince.IsZero() {", ["C15"], "only-negotiated-parameters", note="RRVS rendered without the extension check")
+mut("M53", "client.go", "			if err := checkNotifySet(opts.Notify); err != nil {\n				return errors.New(\"smtp: Malformed NOTIFY parameter value\")\n			}\n", "", ["C15"], "Rcpt", note="NOTIFY values rendered unchecked (CR/LF can reach the line)")
+mut("M49", "client.go", "			if !isPrintableASCII(opts.EnvelopeID) {\n				return errors.New(\"smtp: Malformed ENVID parameter value\")\n			}\n", "", ["C14"], "envid-within-the-xtext-domain", note="printable check on ENVID deleted (not line-breaking: xtext still escapes)")
+mut("M76", "client.go", "	if err := validateLine(from); err != nil {\n		return err\n	}\n	if err := c.hello(); err != nil {\n		return err\n	}\n\n	var sb strings.Builder\n	// A high enough power of 2 than 510+14+26+11+9+9+39+500", "	if err := c.hello(); err != nil {\n		return err\n	}\n	if err := validateLine(from); err != nil {\n		return err\n	}\n\n	var sb strings.Builder\n	// A high enough power of 2 than 510+14+26+11+9+9+39+500", ["C15"], "nothing-written-for-bad-line", note="Mail: validateLine after hello(): EHLO written although the call fails locally")
+mut("M77", "client.go", "	if ok, _ := c.Extension(\"STARTTLS\"); !ok {\n		return errors.New(\"smtp: server doesn't support STARTTLS\")\n	}\n", "", ["C10"], "starttls-only-if-offered", note="initStartTLS continues without the extension")
 # ---------------------------------------------------------------- refactorings (must pass)
 mut("R01", "data.go", "func (r *dataReader) Read(b []byte) (n int, err error) {", "func (r *dataReader) Read(b []byte) (n int, err error) {\n	_ = 0", ["C01", "C02", "C06", "C07"], kind="refactor", note="no-op statement inserted")
 mut("R02", "data.go", """		if r.n <= 0 {
